@@ -88,6 +88,8 @@ def _from_frame(f, name, event_kind, via_user):
         out['cls'] = cn
         if cn == 'Check' and event_kind == 'call':
             out['kind'] = 'check-validator'
+        elif cn == '_MExpr' and event_kind == 'arith':
+            out['kind'] = 'callable'        # the target's own comparison operator, called by an M-expression
         elif event_kind == 'call':
             out['kind'] = 'callable'
         else:
